@@ -264,6 +264,48 @@ fn run_op(db: &mut FixtureDatabase, op: &Value) -> Value {
                 }
             }
         }
+        "refsx" => {
+            // references of a definition together with go-to-definition on every recorded
+            // usage of that name (the two sides of C04), from the implementation's own records
+            match db.get_definition_at_line(&path, n(op, "line") as usize, s(op, "name")) {
+                None => json!({"nodef": true}),
+                Some(d) => {
+                    let r = db.find_references_for_definition(&d);
+                    let us: Vec<FixtureUsage> = db
+                        .usage_by_fixture
+                        .get(&d.name)
+                        .map(|e| e.value().iter().map(|(_, u)| u.clone()).collect())
+                        .unwrap_or_default();
+                    let gotos: Vec<Value> = us
+                        .iter()
+                        .map(|u| {
+                            let g = db.find_fixture_definition(
+                                &u.file_path,
+                                (u.line as u32).saturating_sub(1),
+                                u.start_char as u32,
+                            );
+                            json!({"usage": usage_json(u), "ans": optdef_json(&g)})
+                        })
+                        .collect();
+                    json!({"def": def_json(&d), "refs": r.iter().map(usage_json).collect::<Vec<_>>(), "gotos": gotos})
+                }
+            }
+        }
+        "agree" => {
+            // the per-file view next to direct resolution, for every known name (C05)
+            let av = db.get_available_fixtures(&path);
+            let mut names: Vec<String> = db.definitions.iter().map(|e| e.key().clone()).collect();
+            names.sort();
+            let per: Vec<Value> = names
+                .iter()
+                .map(|nm| {
+                    json!({"name": nm,
+                           "closest": optdef_json(&db.verif_find_closest_definition(&path, nm)),
+                           "rff": optdef_json(&db.resolve_fixture_for_file(&path, nm))})
+                })
+                .collect();
+            json!({"available": av.iter().map(def_json).collect::<Vec<_>>(), "names": per})
+        }
         "refs_by_name" => {
             let r = db.find_fixture_references(s(op, "name"));
             let mut v: Vec<Value> = r.iter().map(usage_json).collect();
